@@ -250,9 +250,47 @@ const ASCII_NO_CARET: &[u8] = b" !\"#$%&'()*+,-./0123456789:;<=>?@ABCDEFGHIJKLMN
 /// generate text that fits into `cap` encoded bytes: (wire bytes, expected decoded string, ascii?)
 fn gen_text(ctx: &mut Ctx, path: &str, cap: usize, raw: bool, min_len: usize) -> (Vec<u8>, String, bool) {
     let ascii_of = |n: usize, seed: usize| -> Vec<u8> { (0..n).map(|i| ASCII_NO_CARET[(seed + i * 7) % ASCII_NO_CARET.len()]).collect() };
-    let pick = ctx.pick(path, 4);
+    let pick = ctx.pick(path, 6);
     let allow_cp = ctx.allow_codepages && !raw;
+    // ASCII-only text that nevertheless carries codepage markers (LFS emits them freely, e.g. "^7Race ^EServer"): the markers
+    // are consumed by the decoder, colours stay. (wire bytes, decoded text)
+    let marked = |letters: &[u8], cap: usize| -> (Vec<u8>, String) {
+        let mut b = vec![];
+        let mut s = String::new();
+        for (i, l) in letters.iter().enumerate() {
+            let word = [&b"ab"[..], b"Race", b"x", b"Srv 1"][i % 4];
+            if b.len() + word.len() + 2 > cap {
+                break;
+            }
+            b.extend_from_slice(word);
+            s.push_str(std::str::from_utf8(word).unwrap());
+            b.push(b'^');
+            b.push(*l);
+            if l.is_ascii_digit() {
+                s.push('^');
+                s.push(*l as char);
+            }
+        }
+        if b.len() < cap {
+            b.push(b'z');
+            s.push('z');
+        }
+        (b, s)
+    };
     match pick {
+        Pick::Nth(4) if allow_cp && cap >= 6 => {
+            let (b, s) = marked(b"E", cap);
+            (b, s, false)
+        },
+        Pick::Nth(5) if allow_cp && cap >= 12 => {
+            let (b, s) = marked(b"7L8", cap);
+            (b, s, false)
+        },
+        Pick::Nth(4) | Pick::Nth(5) => {
+            let b = ascii_of(cap.min(2).max(min_len), 21);
+            let s = String::from_utf8(b.clone()).unwrap();
+            (b, s, true)
+        },
         Pick::Zero => {
             let b = ascii_of(min_len, 33);
             let s = String::from_utf8(b.clone()).unwrap();
@@ -284,8 +322,25 @@ fn gen_text(ctx: &mut Ctx, path: &str, cap: usize, raw: bool, min_len: usize) ->
             (b, "ěx".into(), false)
         },
         Pick::Random => {
-            let class = ctx.t().below(8);
+            let class = ctx.t().below(10);
             match class {
+                8 | 9 if allow_cp && cap >= 6 => {
+                    let n = 1 + ctx.t().below(3);
+                    let letters: Vec<u8> = (0..n).map(|_| b"LGCETBJHSK8790"[ctx.t().below(14)]).collect();
+                    let (b, s) = marked(&letters, cap);
+                    if b.len() >= min_len {
+                        (b, s, false)
+                    } else {
+                        let b = ascii_of(min_len, 13);
+                        let s = String::from_utf8(b.clone()).unwrap();
+                        (b, s, true)
+                    }
+                },
+                8 | 9 => {
+                    let b = ascii_of(cap.min(3).max(min_len), 15);
+                    let s = String::from_utf8(b.clone()).unwrap();
+                    (b, s, true)
+                },
                 0 => {
                     let b = ascii_of(min_len, 3);
                     let s = String::from_utf8(b.clone()).unwrap();
